@@ -69,6 +69,12 @@ func C18(c *Ctx) error {
 			jobs = append(jobs, job{req, tags})
 		}
 	}
+	// every hostile plain scalar of the list, three per small schema (the generator walks the list by
+	// schema index): YAML-1.1 booleans, numbers in every notation, timestamps, indicators
+	for h := 0; 3*h < len(gen.YAMLHostile); h++ {
+		req, tags := gen.GenOAFile(r.Fork(fmt.Sprintf("c18-hostile-%d", h)), h, gen.OAOpts{Shapes: map[string]bool{"hostile_values": true}})
+		jobs = append(jobs, job{req, tags})
+	}
 	parallel(len(jobs), func(i int) {
 		c18One(c, jobs[i].req, jobs[i].tags)
 	})
